@@ -97,6 +97,70 @@ theorem C08_owning_fresh {cmp : α → α → Int} (hc : Lawful cmp) (ks : List 
   | none => have := (descend_none_iff_find cmp k _ []).mp hd; simp [hf] at this
   | some path => simp [Container.insert, buildC_tree, hd]
 
+/-- Owning flavour, element types whose construction can fail: with every construction succeeding, `insertMk` is `insert`. -/
+theorem C08_insertMk_total (cmp : α → α → Int) (c : Container α) (k : α) :
+    Container.insertMk cmp some c k = some (Container.insert cmp c k) := by
+  unfold Container.insertMk Container.insert
+  cases descend cmp k c.tree [] <;> rfl
+
+/-- A key that is present is answered WITHOUT constructing anything: whatever `mk` would do (fail included), the existing
+    element is returned and the container is unchanged. -/
+theorem C08_present_key_constructs_nothing {cmp : α → α → Int} (hc : Lawful cmp) (mk : α → Option α) (ks : List α) (k : α)
+    (h : k ∈ ks) : Container.insertMk cmp mk (buildC cmp ks) k = some (buildC cmp ks, false) := by
+  have hm := (C08_members hc ks k).mpr h
+  have hf := find_complete hc k _ (C08_ordered hc ks) hm
+  have hn := (descend_none_iff_find cmp k (build cmp ks) []).mpr (by simp [hf])
+  simp [Container.insertMk, buildC_tree, hn]
+
+/-- A construction that fails is refused exactly when an element would have to be made (the key is absent) -- and then
+    the caller's container is the one it had: `insertMk` returns no new container at all. -/
+theorem C08_failed_construction_iff_absent {cmp : α → α → Int} (hc : Lawful cmp) (ks : List α) (k : α) :
+    Container.insertMk cmp (fun _ => none) (buildC cmp ks) k = none ↔ k ∉ ks := by
+  constructor
+  · intro hnone hk
+    rw [C08_present_key_constructs_nothing hc _ ks k hk] at hnone
+    cases hnone
+  · intro hk
+    have hm : k ∉ inorder (build cmp ks) := fun hm => hk ((C08_members hc ks k).mp hm)
+    have hf := (find_none_iff hc k _ (C08_ordered hc ks)).mpr hm
+    cases hd : descend cmp k (build cmp ks) [] with
+    | none => have := (descend_none_iff_find cmp k _ []).mp hd; simp [hf] at this
+    | some path => simp [Container.insertMk, buildC_tree, hd]
+
+/-- A client's history in which some constructions fail and are caught: each key is offered through `insertMk`; a refusal
+    leaves the client with the container it had. -/
+def buildMk (cmp : α → α → Int) (mk : α → Option α) (ks : List α) : Container α :=
+  ks.foldl (fun c k => match Container.insertMk cmp mk c k with | some r => r.1 | none => c) {}
+
+theorem buildMk_snoc (cmp : α → α → Int) (mk : α → Option α) (ks : List α) (k : α) :
+    buildMk cmp mk (ks ++ [k]) =
+      (match Container.insertMk cmp mk (buildMk cmp mk ks) k with | some r => r.1 | none => buildMk cmp mk ks) := by
+  simp [buildMk, List.foldl_append]
+
+/-- After any such history the container is exactly the one built from the keys whose construction succeeds, in the same
+    order: failed attempts (keys absent or present) leave no trace -- no node, no count, no rebalancing. -/
+theorem C08_failed_attempts_leave_no_trace (cmp : α → α → Int) (ok : α → Bool) (ks : List α) :
+    buildMk cmp (fun k => if ok k then some k else none) ks = buildC cmp (ks.filter ok) := by
+  induction ks using Ipr.List.snocInduction with
+  | nil => rfl
+  | append_singleton ks k ih =>
+    rw [buildMk_snoc, ih, List.filter_append]
+    by_cases hk : ok k = true
+    · have : [k].filter ok = [k] := by simp [hk]
+      rw [this, buildC_snoc]
+      simp only [Container.insertMk, Container.insert, hk, if_true]
+      cases descend cmp k (buildC cmp (ks.filter ok)).tree [] <;> rfl
+    · have hk' : ok k = false := by simpa using hk
+      have : [k].filter ok = [] := by simp [hk']
+      rw [this, List.append_nil]
+      simp only [Container.insertMk, hk']
+      cases descend cmp k (buildC cmp (ks.filter ok)).tree [] <;> simp
+
+-- non-vacuity: a refusal, an answer without construction, and a history with failures in it
+example : Container.insertMk icmp (fun _ => none) (buildC icmp [5, 3, 7]) 6 = none := by decide
+example : (Container.insertMk icmp (fun _ => none) (buildC icmp [5, 3, 7]) 3).isSome = true := by decide
+example : (buildMk icmp (fun k => if k % 2 == 1 then some k else none) [5, 4, 3, 8, 7, 4]).count = 3 := by decide
+
 /-- Owning flavour: `size()` is the number of nodes, i.e. of distinct keys inserted. -/
 theorem C08_owning_count {cmp : α → α → Int} (hc : Lawful cmp) (ks : List α) :
     (buildC cmp ks).count = size (build cmp ks) := by
